@@ -92,6 +92,11 @@ CHECKS["C09"] = ("DESIGN §4 C09",
     "every configuration of the stated alphabets is applied through the real load API and the produced nodal force vector is summed; linear in the density, so the monomial basis decides polynomial loads; reference integrals from own geometry and own Gauss-Legendre/Duffy rules",
     "trusted: zoo/c09_geom.py reference geometry and quadrature (independent of EasyFEA tables); tolerance 1e-10 x integral of |g|")
 
+CHECKS["C18"] = ("DESIGN §4 C18",
+    "exhaustive enumeration of (law x element type) x deformation alphabet (57 letters in 2D, 129 in 3D: all diagonal stretches from {0.8,1,1.3}^dim, shears, generic F, each under 4 rotations, one inhomogeneous field) x EVERY element dof as perturbation direction at every Gauss point; (operator x law x element type) for the 7 nonlinear operators; free-motion energy runs over body x initial velocity x dt x stress option",
+    "every letter / dof / operator of the stated alphabets is evaluated on the real laws and operators; oracles: Richardson-extrapolated differences of the implementation's own Compute_W and residuals (truncation estimate added to the tolerance, inconclusive entries counted), objectivity, reference state, discrete energy balance at every step",
+    "trusted: numpy kinematics written by the harness (own Kelvin-Mandel form of delta E); fixed step sizes 2e-6..8e-6; runs whose Newton does not converge are skipped and counted")
+
 PENDING_REASON = "not claimed yet: the bounded-exhaustive check for this property is designed (DESIGN.md §4) but not built in the committed tree"
 
 
